@@ -10,6 +10,7 @@ mod nametext;
 mod packet;
 mod proj;
 mod rdata;
+mod reparse;
 mod util;
 
 #[global_allocator]
@@ -26,6 +27,7 @@ fn main() {
         "rdata" => rdata::run(&a),
         "packet" => packet::run(&a),
         "edns" => edns::run(&a),
+        "reparse" => reparse::run(&a),
         "compress" => compress::run(&a),
         "sinks" => compress::run_sinks(&a),
         "inspect" => inspect::run(&a),
